@@ -6,7 +6,7 @@ PROP = {
     "generate": [gen_guards],
     "leanchecker": True,
     "trusted_base": WORLD_TB + ["tools/extract (go/ast): regenerates Lc/Generated/Guards.lean (mutator call sites and their WriteOK guards, command functions and getArgs, dropped errors) from the source on every run; default deny for what it does not understand"] + [
-        "fault injection through the verif hook fs.verifPoint (one fault point per fs.Mkdir/WriteTextFile/Symlink/Rename/Remove/Mount/Unmount and per open/write of TextOutputFileCursor)",
+        "fault injection through the verif hook fs.verifPoint (one fault point per fs.Mkdir/WriteTextFile/Symlink/Rename/Remove/Unmount, per kernel call of fs.Mount (the mount, and the propagation change after an rbind of /dev, /sys, /run: theorems propagation_failure_reported, fsMount_passes_fault_points) and per open/write of TextOutputFileCursor)",
     ],
     "assumptions": WORLD_ASSUME + [
         "an operation fails only as a whole (no partial write within one write(2))",
